@@ -3,7 +3,7 @@ Theorems: coq/Props/Properties_C17.v -- for every thread count, element mix and 
 (reusing the C33 ParallelExecutor protocol model: every completed round executes exactly the stripes, finish() calls are
 mutually exclusive) the shared force arrays receive the same multiset of contributions, hence equal sums over R; no two
 workers touch the same array concurrently (race freedom from the access table); refuted: the pre-fix table (task 0 wrote
-the shared arrays during execute), and the non-parallel task driven by a multi-threaded executor.
+the shared arrays during execute), and the non-parallel task driven by a multi-threaded executor (both fixed in /repo; regression witnesses).
 Tie: (1) the access tables are regenerated from Simbody/src/GeneralForceSubsystem.cpp on every run
 (translate/C17_access.py -> coq/Gen/C17_access_gen.v) and access_table_ok re-proved; (2) correspondence: random mixes of
 parallel / non-parallel / position-only elements, thread counts 1..16, four Dynamics realizations each (cache-invalid and
@@ -85,7 +85,7 @@ def run(ctx):
         haspar = any(e[1] for e in els)
         for k in threads:
             inp.append('RUN %d %d 0' % (i, k))
-            if haspar and k in (2, 5, 16): inp.append('RUN %d %d 1' % (i, k))     # thread count changed after realizeTopology: fine for the parallel task
+            if k in (2, 5, 16): inp.append('RUN %d %d 1' % (i, k))     # thread count changed after realizeTopology (the non-parallel task must stay single-threaded)
     rc, out, err = sh([exe], input='\n'.join(inp) + '\n', timeout=3000)
     if rc != 0: ctx.broken.append(('correspondence:harness', 'harness exit %d: %s' % (rc, err[-400:])))
     TOT = {}; CALL = {}; CON = {}; THR = {}
@@ -200,12 +200,12 @@ def probes(ctx, exe, tables):
     if p0.get('overlap') != '0' or p0.get('actualthreads') != '1':
         ctx.broken.append(('probe:nonparallel-forced-single', 'realizeTopology no longer forces one thread for the non-parallel task: %s' % p0))
     ctx.extra['overlap_probes'] = res
-    if rep:
-        ctx.report(NKEY, 'setNumberOfThreads(2) after realizeTopology on a subsystem without parallel elements: the non-thread-safe CalcForcesNonParallelTask is run by 2 '
-                   'workers; overlap probe: %s' % rep[0], {'failing_input': 'PROBE 2 1 0 0', 'theorem': 'C17_nonparallel_multithreaded_race_refuted'})
-    ov = tables.get('subsystem', {}).get('set_threads_can_override')
-    if ov == '1' and not rep:
-        ctx.notes.append('scanner says setNumberOfThreads can override the forced single thread, but the probe did not overlap')
+    if rep:   # regression (fixed in /repo by 648c314e): must not reproduce
+        ctx.broken.append(('probe:nonparallel-task', 'the non-parallel task is run by several workers after setNumberOfThreads: %s' % rep[0]))
+        ctx.report('impl:' + NKEY, 'regression: setNumberOfThreads(2) after realizeTopology on a subsystem without parallel elements: the non-thread-safe '
+                   'CalcForcesNonParallelTask is run by 2 workers; overlap probe: %s' % rep[0], {'failing_input': 'PROBE 2 1 0 0', 'theorem': 'C17_nonparallel_multithreaded_race_refuted'})
+    if tables.get('subsystem', {}).get('set_threads_can_override') == '1':
+        ctx.broken.append(('access-table:set-threads', 'setNumberOfThreads can replace the single-threaded executor of the non-parallel task (scanner)'))
 
 def search(ctx, exe):
     """failing-input search on the implementation: the property's own predicates -- totals equal across thread counts (many repetitions,
